@@ -171,6 +171,15 @@ Proof.
     destruct (e_a e =? v); [destruct (e_b e =? v)|destruct (e_a e =? v)]; auto.
 Qed.
 
+Lemma EOk_pop I es u : closedI I es -> ~ In u I -> EOk I es (pop_contraction u es).
+Proof.
+  intros C NU. unfold pop_contraction. apply EOk_map.
+  - intro e. destruct ((e_a e =? u) || (e_b e =? u)); simpl; auto.
+  - intros e Hin T. destruct ((e_a e =? u) || (e_b e =? u)) eqn:J; auto.
+    apply orb_true_iff in J. rewrite !N.eqb_eq in J.
+    rewrite (closed_other I es e u C Hin NU) in T; [discriminate|tauto].
+Qed.
+
 (* ---------- node-list facts ---------- *)
 Lemma gnodes_app g a b : gnodes g (a ++ b) = gnodes g a ++ gnodes g b.
 Proof. apply filter_app. Qed.
@@ -310,18 +319,28 @@ Proof.
     destruct (e_a e =? v); [destruct (e_b e =? v)|destruct (e_a e =? v)]; auto.
 Qed.
 
+Lemma pop_ebelow nx u es : ebelow nx es -> ebelow nx (pop_contraction u es).
+Proof.
+  intros E x Hx. unfold pop_contraction in Hx. apply in_map_iff in Hx as (y & Ey & Hy). subst.
+  destruct ((e_a y =? u) || (e_b y =? u)); simpl; apply (E y Hy).
+Qed.
+
 Lemma pres_contract g st u v :
   Good g st -> ~ In u (gints g st) -> ~ In v (gints g st) -> u < s_next st ->
   Pres g st (contract u v st).
 Proof.
   intros G NIc NIt Hu. pose proof G as (U & B & EB & C).
   destruct (pres_delete g st v G NIt) as [[ON _] (U1 & B1 & EB1 & _)].
-  destruct (EOk_contract (gints g st) (s_edges st) u v C NIc NIt) as [E1 E2].
+  pose proof (EOk_contract (gints g st) (s_edges st) u v C NIc NIt) as K1.
+  assert (EOk (gints g st) (s_edges st)
+            (pop_contraction u (fold_left (reattach u v) (filter (fun e => (e_a e =? v) || (e_b e =? v)) (s_edges st))
+                                          (filter (fun e => negb (e_a e =? v) && negb (e_b e =? v)) (s_edges st))))) as [E1 E2].
+  { eapply EOk_trans; eauto. apply EOk_pop; auto. destruct K1; auto. }
   assert (of_gid g (contract u v st) = of_gid g st) as ON' by exact ON.
   split; [split; auto|].
   unfold Good. unfold gints at 1. rewrite ON'. fold (gints g st).
   unfold contract; simpl. split; [|split; [|split]]; auto.
-  apply fold_reattach_ebelow; auto.
+  apply pop_ebelow. apply fold_reattach_ebelow; auto.
   intros e He. apply filter_In in He as [He _]. apply (EB e He).
 Qed.
 
@@ -483,6 +502,7 @@ Proof.
   - match goal with |- out_pres _ _ (if ?c then _ else _) => destruct c end; [exact I|].
     match goal with |- out_pres _ _ (match ?f with _ => _ end) => destruct f as [st3|] eqn:F end; [|exact I].
     assert (Pres g st st3) as P4 by (exact (pres_merge_one g cbm tmp adm st NC NT _ st2 st3 P123 F)).
+    destruct (gexists tmp st3); [|exact P4].
     eapply out_pres_trans; eauto. apply pres_rehome; auto. apply P4.
 Qed.
 
